@@ -5,7 +5,7 @@ import A2Verif.Lemmas.FsProdosPut
 import A2Verif.Lemmas.FsProdosOps
 import A2Verif.Lemmas.FsProdosLockPath
 import A2Verif.Lemmas.FsProdosRetype
-import A2Verif.Lemmas.FsProdosSt
+import A2Verif.Lemmas.FsProdosRun
 import A2Verif.Model.Read.ProdosT
 import A2Verif.Model.VolSpec
 /-!
@@ -43,91 +43,6 @@ under the **total** reader `Read.ProdosT.read`.
 -/
 namespace A2Verif.FsProdos
 open A2Verif.Fs.Prodos
-
-/-- the parameters of the abstract specification for ProDOS (as `Drv/Fs.lean::fsParams "prodos"`) -/
-def prodosParams : FsParams := { eofRule := id, keepsType := true, keepsAux := true, hasLock := true }
-
-/-- the on-disk invariant, as a decidable check: every unit is a block, the total reader reads the image, the reading
-is well formed (C03) and leak free (C04) -/
-def InvB (r : Raw) : Bool :=
-  r.units.all (fun u => u.length == 512) &&
-  (match Read.ProdosT.read r with
-   | .ok v => v.wfB && v.noLeak
-   | .error _ => false)
-
-/-- the reading of an image (the empty volume where it cannot be read) -/
-def volOf (r : Raw) : Vol :=
-  match Read.ProdosT.read r with
-  | .ok v => v
-  | .error _ => { lo := 0, hi := 0, sys := [], files := [], freeUnits := [] }
-
-/-- concrete operations, with the arguments the a2kit API takes -/
-inductive COp where
-  | put (path : Bytes) (ftype aux access : Nat) (eof : Nat) (chunks : List (Nat × Bytes))
-  | delete (path : Bytes)
-  | rename (path newName : Bytes)
-  | lock (path : Bytes)
-  | unlock (path : Bytes)
-  | retype (path : Bytes) (ftype aux : Nat)
-  | mkdir (path : Bytes)
-
-/-- the operation of the abstract specification (`cp`: the canonical path of the target, `cq` of a rename's new name) -/
-def COp.abs (cp cq : Bytes) : COp → FsOp
-  | .put _ ft aux _ eof cs => .put cp cs eof ft aux
-  | .delete _ => .delete cp
-  | .rename _ _ => .rename cp cq
-  | .lock _ => .lock cp
-  | .unlock _ => .unlock cp
-  | .retype _ _ _ => .retype cp
-  | .mkdir _ => .mkdir cp
-
-def okOf {α : Type} (x : R α × Disk) : Bool × Disk :=
-  match x with
-  | (.ok _, d) => (true, d)
-  | (.error _, d) => (false, d)
-
-/-- the source with the four repairs the model carries (`Repairs`): the tree after `prodos-delete-grown-directory`,
-`prodos-put-size-limits`, `prodos-bitmap-block-count` and `prodos-put-first-chunk-hole` -/
-def repaired : Repairs := { dirDelete := true, putLimits := true, bitmapCeil := true, firstHole := true }
-
-/-- the source before the last two repairs (a2kit at aadfbdc) -/
-def asWritten : Repairs := { dirDelete := true, putLimits := true }
-
-/-- one concrete operation followed by the write-back `get_img()` performs; `rp` = the variant of the source -/
-def COp.run (rp : Repairs) (time : Bytes) (op : COp) (d : Disk) : Bool × Disk :=
-  let (ok, d') := match op with
-    | .put p ft aux acc eof cs => okOf (Fs.Prodos.put { fullPath := p, fsType := [ft], aux := u16le aux, access := [acc], eof := eof, chunks := cs } time rp d)
-    | .delete p => okOf (Fs.Prodos.delete p rp d)
-    | .rename p n => okOf (Fs.Prodos.rename p n d)
-    | .lock p => okOf (Fs.Prodos.lock p d)
-    | .unlock p => okOf (Fs.Prodos.unlock p d)
-    | .retype p t a => okOf (Fs.Prodos.retype p (some t) (some a) d)
-    | .mkdir p => okOf (Fs.Prodos.mkdir p time d)
-  (ok, d'.flush.2)
-
-/-- one step of a history is a transition the abstract specification allows, ends in an `InvB` image, and has the
-expected result -/
-def stepRefines (rp : Repairs) (time : Bytes) (cp cq : Bytes) (op : COp) (expectOk : Bool) (d : Disk) : Bool × Disk :=
-  let (ok, d') := op.run rp time d
-  (stepOk prodosParams (volOf d.raw) (op.abs cp cq) ok (volOf d'.raw) && InvB d'.raw && ok == expectOk, d')
-
-def historyRefines (rp : Repairs) (time : Bytes) : List (Bytes × Bytes × COp × Bool) → Disk → Bool
-  | [], _ => true
-  | (cp, cq, op, expectOk) :: rest, d =>
-    let (good, d') := stepRefines rp time cp cq op expectOk d
-    good && historyRefines rp time rest d'
-
-/-! ## a small volume in the kernel -/
-
-def blank (n : Nat) (rp : Repairs) : Disk :=
-  { raw := { unitLen := 512, units := Array.replicate n (List.replicate 512 0) }, total := n, bitmap := none, bitmapBlocks := [], src := rp }
-
-def exTime : Bytes := [33, 0, 0, 0]
-
-/-- `format("VERIF", …)` of a blank image of `n` blocks, written back -/
-def formatted (n : Nat) (rp : Repairs := repaired) : Disk := ((format [86, 69, 82, 73, 70] (zeros 512) exTime (blank n rp)).2.flush).2
-
-def chunkOf (v n : Nat) : Bytes := List.replicate n v
 
 /-! ## the theorems, under the names registered in `obligations/` -/
 
@@ -432,5 +347,85 @@ example : ∃ d : Disk, St d 6 2 ∧ d.src.bitmapCeil = false ∧ d.total = 4096
   ⟨{ raw := { unitLen := 512, units := #[[], [], List.replicate 39 0 ++ [6, 0], [], [], [], [], []] }, total := 4096,
      bitmap := none, bitmapBlocks := [], src := asWritten },
    ⟨⟨_, rfl, by decide⟩, by decide, by decide, by intro i hi; rw [mem_bmRange] at hi; show i < 8; omega, Or.inl ⟨rfl, Or.inl rfl⟩⟩, rfl, rfl⟩
+
+/-! ## the on-disk invariant and the bitmap buffer (M1) -/
+
+/-- **`Inv` is decidable and implies a sound reading** (C03, C04): on every image satisfying the invariant the total reader
+succeeds, and what it reads is well formed and leak free -/
+theorem prodos_inv_reading {r : Raw} (h : Inv r) :
+    ∃ v, Read.ProdosT.read r = .ok v ∧ v.wfB = true ∧ v.noLeak = true := inv_reading h
+
+example (r : Raw) : Decidable (Inv r) := inferInstance
+
+/-- **buffer states, opening**: between two calls of the API (`SInv`: buffer closed as after `from_img` / `get_img()`, or open
+as after `stat()`), `get_bitmap_buffer` yields the buffer the image holds — `open_bitmap_buffer` loads the `⌈total/4096⌉`
+bitmap blocks the volume header names — and leaves the buffer open -/
+theorem prodos_open_loads_image {d : Disk} (hs : SInv d) :
+    getBitmap d = (.ok (bufOf d.raw (hdrBm d.raw) (nbmOf d.total)), openD d (hdrBm d.raw) (nbmOf d.total)) := by
+  rw [getBitmap_st hs.st, hs.eff]
+
+/-- **buffer states, write-back round trip**: what `get_img()` writes into the bitmap blocks (`wbRaw`) is what the next
+`open_bitmap_buffer` loads, for every number of bitmap blocks -/
+theorem prodos_writeback_round_trip (r : Raw) (bm cnt : Nat) (buf : Array Nat) (hex : ∀ i ∈ bmRange bm cnt, i < r.units.size)
+    (hsize : buf.size = blockSize * cnt) : bufOf (wbRaw r bm cnt buf) bm cnt = buf := bufOf_wbRaw r bm cnt buf hex hsize
+
+/-- **buffer states, `get_img()`**: on a disk object between two calls `get_img()` succeeds, leaves the image as it is (an open
+buffer equals what the image holds) and ends in an `SInv` state with the buffer closed -/
+theorem prodos_get_img_keeps_image {d : Disk} (hs : SInv d) :
+    ∃ d', d.flush = (.ok (), d') ∧ d'.raw = d.raw ∧ SInv d' := refused_same hs
+
+/-- **`stat().free_blocks` under the invariant** (C04): the number of units the reader finds free, from either buffer state;
+afterwards the buffer is open and the state is an `SInv` state again -/
+theorem prodos_stat_free_inv {d : Disk} (hs : SInv d) :
+    ∃ v d', Read.ProdosT.read d.raw = .ok v ∧ statFree d = (.ok v.free, d') ∧ SInv d' ∧ d'.raw = d.raw := statFree_sinv hs
+
+/-! ## `delete` (M2/M3 for the volume directory) -/
+
+/-- **`delete` frees exactly the blocks the reader reports as owned — seedling, sapling and tree files** (C04), from either
+buffer state: for an entry whose blocks (`ownedOfEntry`: what the model walks) are pairwise different, exist, are no bitmap
+blocks and are covered by the buffer, `deallocate_file_blocks` succeeds; a block is free afterwards iff it is one of them or
+was free; only the file's index blocks are rewritten (halves swapped); and `ownedOfEntry` **is** the `owned` list the
+independent reader reports for that entry (master index block clean) -/
+theorem prodos_delete_frees_owned {d : Disk} {bm cnt : Nat} (h : St d bm cnt) (e pfx : Bytes) (total : Nat) (f : FileRec)
+    (hst : e.getD 0 0 / 16 = 1 ∨ e.getD 0 0 / 16 = 2 ∨ e.getD 0 0 / 16 = 3)
+    (hread : Read.ProdosT.readFile d.raw total e pfx = .ok f)
+    (hclean : e.getD 0 0 / 16 = 3 → MasterClean (unitAt d.raw (le16 e 0x11)))
+    (hnd : f.owned.Nodup)
+    (hall : ∀ x ∈ f.owned, x ∉ bmRange bm cnt ∧ x ≠ 2 ∧ x < d.raw.units.size ∧ x / 8 < (effBuf d bm cnt).size)
+    (hok : BytesOk (effBuf d bm cnt)) :
+    ∃ d' raw' buf', deallocFileBlocks e d = (.ok (), d') ∧ Next d d' bm cnt raw' buf' ∧
+      (∀ j, j ∉ f.owned → raw'.units[j]? = d.raw.units[j]?) ∧
+      (∀ j, freeB buf' j = (f.owned.contains j || freeB (effBuf d bm cnt) j)) := by
+  have ho := readFile_owned d.raw total e pfx f hread hst hclean
+  rw [ho] at hnd hall
+  obtain ⟨d', raw', buf', h1, h2, _, h4, _, _, _, h8⟩ := deallocFile_next h e hst hnd hall hok
+  exact ⟨d', raw', buf', h1, h2, by rw [ho]; exact h4, by rw [ho]; exact h8⟩
+
+/-- **`delete(path)` refines the abstract `delete`** (C02, C03, C04, C05, C19; files of the volume directory — seedling,
+sapling or tree —, volumes without sub-directories, source as repaired).  `path` has the normal form `[volume, name]`.  From
+either buffer state: whatever the outcome (deleted; `PATH NOT FOUND` for a missing or invalid name; `WRITE PROTECTED` for a
+file whose destroy bit is clear), after `get_img()` the disk object satisfies `SInv` again — the image satisfies `Inv` — and
+the readings before and after satisfy every condition of the abstract specification for `delete NAME` with that result: a
+refusal changes nothing; a success removes exactly that record, frees exactly its blocks, leaves every other record
+identical, and the volume well formed and leak free. -/
+theorem prodos_delete_refines {d : Disk} (hs : SInv d) (path nm : Bytes)
+    (hnodes : normalizePath (volName (hdrOf d.raw)) path = .ok [volName (hdrOf d.raw), nm]) (hnm : nm ≠ [])
+    (hnv : NotVol (volName (hdrOf d.raw)) path) :
+    ∃ res d1 d4 v v4, delete path repaired d = (res, d1) ∧ d1.flush = (.ok (), d4) ∧ SInv d4 ∧
+      Read.ProdosT.read d.raw = .ok v ∧ Read.ProdosT.read d4.raw = .ok v4 ∧
+      stepOk prodosParams v (.delete (upper nm)) (match res with | .ok _ => true | .error _ => false) v4 = true :=
+  delete_refines hs path nm hnodes hnm hnv
+
+/-- the same for a simple relative name (no `/`, 1 to 15 characters): the abstract operation is `delete` of the upper-cased name -/
+theorem prodos_delete_refines_name {d : Disk} (hs : SInv d) (name : Bytes) (hne : name ≠ []) (hns : 47 ∉ name) (hl : name.length ≤ 15) :
+    ∃ res d1 d4 v v4, delete name repaired d = (res, d1) ∧ d1.flush = (.ok (), d4) ∧ SInv d4 ∧
+      Read.ProdosT.read d.raw = .ok v ∧ Read.ProdosT.read d4.raw = .ok v4 ∧
+      stepOk prodosParams v (.delete (upper name)) (match res with | .ok _ => true | .error _ => false) v4 = true := by
+  have hn := normalizePath_simple (volName (hdrOf d.raw)) name hne hns hl (volName_len _)
+  have hun : upper name ≠ [] := by
+    intro h; apply hne; unfold upper at h; exact List.map_eq_nil_iff.mp h
+  have := delete_refines hs name (upper name) hn hun (notVol_simple _ name hne hns)
+  rw [upper_upper] at this
+  exact this
 
 end A2Verif.FsProdos
